@@ -22,6 +22,7 @@ EXPLANATION = (
     "follows by induction on word length; Stabilizer.__eq__ is True on (T, E.T) and False on (T, T with one sign "
     "flipped). fidelity: both tableaux symbolic, returned float vs the overlap oracle |<a|b>|^2 = 0 if some P in S_a "
     "has -P in S_b else |S_a n S_b| / 2^n (group elements expanded), symmetry by running both orders.")
+CROSSHAIR = ["xh/g_function_contract.py"]
 ASSUMPTIONS = ["A1 z3 sound", "A2 numpy object-array semantics",
                "fidelity returns a float: 'equals' means |value - oracle| <= 1e-9 (2**(-k/2) squared is 0.5000000000000001 for k=1)",
                "destabilizer halves of fidelity's inputs are left unconstrained (the function never reads them)"]
